@@ -18,7 +18,7 @@
     total order, and the orders of the library's key types (UintN, IntN, BitsN,
     AddressWithWorkchain) are shown to be instances. *)
 From Coq Require Import List NArith ZArith Arith Lia Bool Sorted Permutation.
-From Tongo Require Import Lib.Bits Lib.Res Spec.Dict Model.Hashmap
+From Tongo Require Import Lib.Bits Lib.Res Spec.Dict Model.Hashmap Model.HashmapHist Proofs.HashmapHistP
   Proofs.DictP Proofs.HashmapPut Proofs.HashmapSort Proofs.HashmapKeys
   Proofs.HashmapP Proofs.HashmapP2 Proofs.HashmapHistory.
 Import ListNotations.
@@ -334,6 +334,41 @@ Theorem C05_decoded_ops_agree :
     (forall c, encode_e venc n mf = Ok c -> decode_e vdec n c = Ok (updates l m0)).
 Proof. exact decoded_ops_agree. Qed.
 Print Assumptions C05_decoded_ops_agree.
+
+(** ** histories on one dictionary object: Marshal only reads it *)
+
+(** Marshal, Items and Get leave the object (its key and value slices, as slices)
+    exactly as it was; in a history without Put every Items answer is the
+    initial object and every encoding is the same. *)
+Theorem C05_marshal_does_not_mutate :
+  forall V venc klt e n (ops : list (hop V)) (m : list (bits * V)),
+  fst (hstep venc klt e n m HMarshal) = m /\
+  (forallb (fun op => negb (is_put op)) ops = true ->
+   fst (hrun venc klt e n m ops) = m /\
+   Forall (obs_of V venc e n m) (snd (hrun venc klt e n m ops))).
+Proof. intros. split; [reflexivity|apply hrun_no_put]. Qed.
+Print Assumptions C05_marshal_does_not_mutate.
+
+(** After ANY history on an object with distinct n-bit keys in any slice order
+    (Puts of any keys interleaved with any number of Marshal / Items / Get),
+    for every key type: Get answers by the initial mapping updated by the
+    history's Puts, Marshal leaves the object unchanged and its output decodes
+    to exactly that mapping. *)
+Theorem C05_history_marshal_sound :
+  forall V venc vdec, vcodec venc vdec ->
+  forall klt, key_order bits_eqb klt ->
+  forall e n (ops : list (hop V)) (m : list (bits * V)) c,
+  hinv V n m -> Forall (op_ok V n) ops ->
+  let mi := fst (hrun venc klt e n m ops) in
+  fst (hstep venc klt e n mi HMarshal) = mi /\
+  snd (hstep venc klt e n mi HMarshal) = OCell (hmarshal venc e n mi) /\
+  bsort mi = updates (puts_of V ops) (bsort m) /\
+  (forall k, get bits_eqb k mi = lookup k (updates (puts_of V ops) (bsort m))) /\
+  (hmarshal venc e n mi = Ok c ->
+   if e then decode_e vdec n c = Ok (updates (puts_of V ops) (bsort m))
+   else mi <> [] -> decode vdec n c = Ok (updates (puts_of V ops) (bsort m))).
+Proof. exact history_marshal_sound. Qed.
+Print Assumptions C05_history_marshal_sound.
 
 (** ** the inputs that refuted the property before the repairs, now *)
 Theorem C05_address_key_fixed :
